@@ -27,6 +27,30 @@ theorem setBal_frame (s : St) (a : Nat) (v : Int) (x : Nat) :
   · subst h; simp
   · simp [h]
 
+/-- everything but the balance -/
+def sameButBal (a b : Acct) : Prop := sameButBalDep a b ∧ a.deposit = b.deposit
+
+theorem sameButBal_refl (a : Acct) : sameButBal a a := ⟨sameButBalDep_refl a, rfl⟩
+
+theorem sameButBal_trans {a b c : Acct} (h1 : sameButBal a b) (h2 : sameButBal b c) : sameButBal a c :=
+  ⟨sameButBalDep_trans h1.1 h2.1, h1.2.trans h2.2⟩
+
+theorem setBal_sameButBal (s : St) (a : Nat) (v : Int) (x : Nat) : sameButBal ((setBal s a v).accts x) (s.accts x) :=
+  setBal_frame s a v x
+
+theorem transfer_sameButBal (s : St) (a b : Nat) (v : Int) (x : Nat) : sameButBal ((transfer s a b v).accts x) (s.accts x) := by
+  unfold transfer
+  exact sameButBal_trans (setBal_sameButBal _ _ _ x) (setBal_sameButBal _ _ _ x)
+
+theorem chargeForGas_sameButBal (s : St) (m : Nat) (f : Int) (x : Nat) : sameButBal ((chargeForGas s m f).accts x) (s.accts x) := by
+  unfold chargeForGas
+  split
+  · exact sameButBal_refl _
+  · simp only
+    split
+    · exact sameButBal_refl _
+    · exact setBal_sameButBal _ _ _ x
+
 theorem refund_frame (c : Ctx) (s : St) (a x : Nat) : sameButBalDep ((refund c s a).accts x) (s.accts x) := by
   unfold refund
   split
